@@ -269,7 +269,8 @@ theorem decode_erase (t : Ty) (h : nameSafe t = true) (b : Bytes) :
 /-! ## the canonical form -/
 
 theorem canonTy_named (n : String) (t : Ty) (v : Val) (h : n ≠ "RawMessage") : canonTy (.named n t) v = canonTy t v := by
-  rw [canonTy]; intro _ e; exact absurd e h
+  rw [canonTy]
+  all_goals (intros; exact absurd (by assumption) h)
 
 theorem canonTy_slice_str (t : Ty) (h : isU8 t = false) (s : Bytes) : canonTy (.slice t) (.str s) = .str s := by
   cases s with
@@ -294,7 +295,8 @@ theorem canonTy_erase_all :
   · intro _; rfl
   · intro _; rfl
   · intro t h; simp [nameSafe] at h
-  · intro name t v _ ih h
+  · intro t v _ h; simp [nameSafe] at h
+  · intro name t v _ _ ih h
     obtain ⟨h1, h2⟩ := named_ne h
     rw [canonTy_named name t v h1]; simp only [erase]; exact ih h2
   · intro t v ih h
@@ -309,7 +311,7 @@ theorem canonTy_erase_all :
   · intro fs vs ih h
     simp only [nameSafe] at h
     simp only [erase, canonTy, ih h]
-  · intro x v _ _ _ hn hp hl hm hst h
+  · intro x v _ _ _ _ hn hp hl hm hst h
     cases x with
     | named n t => exact absurd rfl (hn n t)
     | ptr t =>
